@@ -122,3 +122,13 @@ Definition wf_sessions_b (S : list session) : bool :=
             imp (String.eqb (kname s k) (kname t k')) (session_eqb s t && kind_eqb k k')) (kinds t)) (kinds s)) &&
   all2 S (fun s t => imp (String.eqb (rm_out s) (rm_out t)) (session_eqb s t)) &&
   all2 S (fun s t => negb (String.eqb (rm_in s) (rm_out t))).
+
+Definition route_ok_b (S : list session) (route : pfx) : bool :=
+  forallb (fun x => imp (String.eqb (p_text x) (p_text route)) (pfx_full_eqb x route)) (all_pfx S).
+
+(* the texts of standard communities do not look like large ones ("large:" is
+   how frrk8s.go marks a large community in PrefixesWithCommunity) *)
+Definition comms_ok (S : list session) : Prop :=
+  forall s a c, In s S -> In a (s_advs s) -> In (false, c) (a_comms a) -> String.prefix "large:" c = false.
+Definition comms_ok_b (S : list session) : bool :=
+  forallb (fun s => forallb (fun a => forallb (fun c => fst c || negb (String.prefix "large:" (snd c))) (a_comms a)) (s_advs s)) S.
